@@ -135,3 +135,21 @@ fn na_diagonal_from_element_2x2() {
     let (i, j) = idx2(2, 3);
     assert!(f[(i, j)] == e && z[j] == 0);
 }
+
+/// prelude `Index<usize>` / rule X15 over matrices: the linear index is column-major, `len()` is r * c, and `iter()` visits
+/// exactly the elements m[0], m[1], ..., m[len - 1] in this order
+#[kani::proof]
+#[kani::unwind(8)]
+fn na_linear_index_iter_3x2() {
+    let a: [u8; 6] = kani::any();
+    let m = DMatrix::from_column_slice(3, 2, &a);
+    assert!(m.len() == 6);
+    let (i, j) = idx2(3, 2);
+    assert!(m[j * 3 + i] == m[(i, j)]);
+    let mut k = 0usize;
+    for e in m.iter() {
+        assert!(k < 6 && *e == m[k]);
+        k += 1;
+    }
+    assert!(k == 6);
+}
